@@ -131,13 +131,30 @@ def call(resolver, node, path, idm):
 COMPS_DEEP = ("x", "*", "**", "..", "?")   # reduced component alphabet for patterns of 4 components
 
 
+_SEPCLS = {}
+
+
+def _sep_factory(sep):
+    import anytree
+
+    if sep not in _SEPCLS:
+        def init(self, name):
+            self.name = name
+        _SEPCLS[sep] = type("SepNode", (anytree.NodeMixin,), {"separator": sep, "__init__": init})
+    return lambda i, name: _SEPCLS[sep](name)
+
+
 def check_tree(t, shape, names, maxcomp, only=None, kind="user"):
     import anytree
 
     m = tree.Model.from_shape(shape)
-    nodes = tree.build(m, tree.default_factory(kind), "topdown", names=list(names))
-    idm = tree.IdMap(nodes)
     sep = "/"
+    if kind.startswith("sep:"):
+        sep = kind[4:]
+        nodes = tree.build(m, _sep_factory(sep), "topdown", names=list(names))
+    else:
+        nodes = tree.build(m, tree.default_factory(kind), "topdown", names=list(names))
+    idm = tree.IdMap(nodes)
     pats = patterns_for(names, sep, maxcomp) if maxcomp <= 3 else patterns_for(names, sep, maxcomp, COMPS_DEEP)
     res = {(ic, rx): anytree.Resolver("name", ignorecase=ic, relax=rx) for ic in (False, True) for rx in (False, True)}
     ctx = {"shape": shape, "names": list(names), "kind": kind}
@@ -166,13 +183,15 @@ def check_tree(t, shape, names, maxcomp, only=None, kind="user"):
                 elif strict[0] == "list":
                     if strict[1] != relaxed[1]:
                         why = "strict result differs from the relaxed list"
+                elif strict[0] == "crash" and kind == "norepr" and ref.dead:
+                    pass  # building the strict error message needs the repr of the node, which this class refuses
                 elif strict[0] == "error":
                     if strict[1] not in ref.dead:
                         why = "strict glob raised %s without a genuine dead end of that kind (dead ends met: %s)" % (
                             strict[1], sorted(ref.dead))
                 else:
                     why = "strict glob crashed: %s" % (strict[1],)
-                if why is None and wildfree and all(len({(s.upper() if ic else s) for s in (names[c] for c in m.ch[v])}) == len(m.ch[v])
+                if why is None and wildfree and kind != "norepr" and all(len({(s.upper() if ic else s) for s in (names[c] for c in m.ch[v])}) == len(m.ch[v])
                                                     for v in range(m.n)):
                     # wildcard-free path over sibling-unique names: glob agrees with get
                     try:
@@ -371,7 +390,7 @@ def plan(tier):
                 if tier == "thorough" or len(set(names)) == 1 or n <= 2:
                     items.append((s, names, 4))
     # node classes with their own truth value / value semantics
-    for kind in ("falsy", "eqhash", "falsylight"):
+    for kind in ("falsy", "eqhash", "falsylight", "norepr", "sep:::", "sep:|", "sep:->"):
         for n in range(1, 4 if tier == "quick" else 5):
             for s in tree.plane_trees(n):
                 for names in itertools.product(("a", "A", "b"), repeat=n):
